@@ -252,7 +252,9 @@ func init() {
 				case k <= 4 && w.fileExists: // append
 					w.appendBytes(&f, 1+t.W(40), t.WBool(1, 4))
 				case k <= 6: // pause
-					d := []time.Duration{time.Millisecond, 30 * time.Millisecond, 249 * time.Millisecond, 251 * time.Millisecond, 1300 * time.Millisecond, 3 * time.Second}[t.W(6)]
+					// (multiples of the 250ms poll period put the writer and the poller at the same fake instant, where the scheduler
+				// decides who goes first, between any two of the poller's system calls)
+				d := []time.Duration{time.Millisecond, 30 * time.Millisecond, 249 * time.Millisecond, 251 * time.Millisecond, 1300 * time.Millisecond, 3 * time.Second, 250 * time.Millisecond, 500 * time.Millisecond, 1250 * time.Millisecond, 200 * time.Millisecond, 50 * time.Millisecond}[t.W(11)]
 					w.opf("pause %v", d)
 					time.Sleep(d)
 					simrt.Yield("world:pause")
